@@ -52,6 +52,8 @@ def plan(tier, seed):
         t.append(("insitu", 12 if tier == "quick" else 120, seed * 1000 + i))
     for i in range(8):
         t.append(("inplace", 150 if tier == "quick" else 2500, seed * 1000 + i))
+    for i in range(8):
+        t.append(("reshape", 12 if tier == "quick" else 200, seed * 1000 + i))
     if tier == "thorough":
         t.append(("repo-tests",))
     random.Random(seed).shuffle(t)
@@ -131,6 +133,23 @@ def work(task):
             run_matrix(p, A, f2)
         p.counters["random/structured matrices"] += cnt
         p.sample({"shape": [m, n], "dtype": str(A.dtype), "rows": gf2.to_rows(A)[:6]})
+    elif kind == "reshape":
+        # the same bit string handed in under every shape m x n with m*n = L, consecutively (results that are remembered
+        # under a key that forgets the shape - or confuse a matrix with its transpose - show up here)
+        _, cnt, seed = task
+        rng = np.random.default_rng(seed)
+        for i in range(cnt):
+            L = [12, 16, 24, 36, 64, 72, 72, 96, 144, 288][i % 10]
+            bits = (rng.random(L) < (0.5, 0.15, 0.85)[i % 3]).astype(DTYPES[i % 4])
+            shapes = [(m, L // m) for m in range(1, L + 1) if L % m == 0 and m <= 72 and L // m <= 72]
+            order = list(rng.permutation(len(shapes)))
+            for k in order + order[:2]:
+                A = bits.reshape(shapes[k]).copy()
+                run_matrix(p, A, f2)
+                if i % 2:
+                    run_matrix(p, np.ascontiguousarray(A.T), f2)
+        p.counters["reshape families"] += cnt
+        p.sample({"stratum": "one bit string under all shapes", "length": L, "shapes": [list(x) for x in shapes]})
     elif kind == "inplace":
         # one caller-owned array object, edited in place between calls (single bits, rows, whole contents): every answer
         # must belong to the contents at call time
